@@ -386,3 +386,11 @@ Definition labelled (G : list bname) (asg : list ids) : list (bname * Z) :=
 Definition machine_field (t : trace ids) : res (list Z) :=      (* compute((gi.start, gi.stop)): one leaf *)
   stream_guard t (res_map (fun rows => concat (map row_table rows))
                           (lockstep item (S (length (fst t))) (map (source_of [] t ([], Stop) []) m_pull_order_field))).
+
+(* MultiStream(sizes, a=<table held in memory>): `value = NpDataclassStream([value], value.__class__)` — the table is
+   the one-chunk stream of itself and goes through SynchedStream like any stream (multistream.py MultiStream.__init__) *)
+Definition table_chunks (chunks : list (list (bname * Z))) : list (list (bname * Z)) := [concat chunks].
+Definition multistream_trace (order : list bname) (chunks : list (list (bname * Z))) : trace ids :=
+  synched_head order (grouped bname zlist_eqb chunks).
+Definition multistream_table_trace (order : list bname) (chunks : list (list (bname * Z))) : trace ids :=
+  multistream_trace order (table_chunks chunks).
